@@ -13,7 +13,7 @@ import collections
 import json
 import os
 
-from .. import guesser, scratch, trainer
+from .. import guesser, scratch, trainer, worlds
 from ..refmodel import RefOmen, RefRuleset
 from ..runner import RunResult, digest_of
 from .training import tree_hash
@@ -550,3 +550,87 @@ def run_one(tape, tier, prop):
     with guesser.streams():
         {"C07": run_c07, "C19": run_c19}[prop](tape, tier, res)
     return res
+
+
+# ---------------------------------------------------------------------------
+# C07: a terminal file of several MiB (a ruleset trained on a very large list) whose lines all have the same length, so that
+# every power-of-two offset -- where block-wise readers cut -- is the end of a line
+
+def _big_file_job(seed):
+    from ..tape import Tape
+    from ..refmodel import RefRuleset
+    t = Tape(seed=seed)
+    out = {"seed": seed, "problem": None, "values": 0, "bytes": 0}
+    spec = worlds.gen_syn(t, allow_m=False, max_pts=40, max_structs=2, max_vars=2, pools=["dyadic"])
+    n = t.choice([300000, 330000, 524288 // 2 + 5])
+    width = 7
+    letters = "abcdefghij"
+    vals = []
+    for i in range(n):
+        x = i
+        s = ""
+        for _ in range(width):
+            s += letters[x % 10]
+            x //= 10
+        vals.append(s)
+    # two groups, probabilities written with seven characters: every line is 7 + 1 + 7 + 1 = 16 bytes
+    half = n // 2
+    spec["vars"]["A7"] = [["3.2e-06", vals[:half]], ["1.1e-06", vals[half:]]]
+    spec["vars"]["C7"] = [["1.0", ["LLLLLLL"]]]
+    spec["base"].append(["A7", "0.0625"])
+    wr = scratch.fresh_disk()
+    rdir = os.path.join(wr, "Rules", "R")
+    worlds.write_ruleset(spec, rdir)
+    out["bytes"] = os.path.getsize(os.path.join(rdir, "Alpha", "7.txt"))
+    ref = RefRuleset(rdir)
+    want = ref.flat["A7"]
+    out["values"] = len(want)
+    from lib_guesser.grammar_io import load_grammar as g_load
+    from lib_scorer.grammar_io import load_grammar as s_load
+    from lib_scorer.pcfg_password_scorer import PCFGPasswordScorer
+    with guesser.streams():
+        try:
+            grammar, base, info = g_load("R", rdir, "4.7", False, False, "Grammar")
+        except Exception:
+            import traceback
+            out["problem"] = ("guesser_loader_failed", {"exception": traceback.format_exc()[-500:]})
+            return out
+        got = [(v, g["prob"]) for g in grammar.get("A7", []) for v in g["values"]]
+        if got != want:
+            k = next((i for i, (a, b) in enumerate(zip(want, got)) if a != b), min(len(want), len(got)))
+            out["problem"] = ("guesser_reads_differently", {"variable": "A7", "values_on_disk": len(want), "loaded": len(got),
+                                                            "first_difference_at": k, "byte_offset": 16 * k})
+            return out
+        sc = PCFGPasswordScorer()
+        try:
+            ok = s_load(sc, rdir)
+        except Exception:
+            import traceback
+            out["problem"] = ("scorer_loader_failed", {"exception": traceback.format_exc()[-500:]})
+            return out
+        if not ok:
+            out["problem"] = ("scorer_loader_failed", {})
+            return out
+        sgot = dict(sc.count_alpha.get(7, {}))
+        dwant = dict(want)
+        if sgot != dwant:
+            missing = [v for v, _ in want if v not in sgot][:3]
+            extra = [v for v in sgot if v not in dwant][:3]
+            out["problem"] = ("scorer_reads_differently", {"variable": "A7", "values_on_disk": len(want), "loaded": len(sgot),
+                                                           "missing": missing, "extra": [repr(e) for e in extra]})
+    return out
+
+
+def extra_phase(tier, base_seed, prop="C07"):
+    if prop != "C07":
+        return {}
+    from .. import bigworld
+    out = {"multi_MiB_terminal_files": 0, "multi_MiB_terminal_file_bytes_max": 0, "violations": []}
+    jobs = [(base_seed * 5501 + 21 + i,) for i in range(1 if tier == "quick" else 4)]
+    for r in bigworld._fan_out(_big_file_job, jobs, workers=4):
+        out["multi_MiB_terminal_files"] += 1
+        out["multi_MiB_terminal_file_bytes_max"] = max(out["multi_MiB_terminal_file_bytes_max"], r["bytes"])
+        if r["problem"]:
+            out["violations"].append({"seed": r["seed"], "tape": [], "violation": {
+                "property": "C07", "kind": "multi_MiB_file:" + r["problem"][0], "key": None, "detail": r["problem"][1]}, "case": None})
+    return out
